@@ -23,14 +23,14 @@ fn rd(b: &[u8], off: usize, len: usize) -> u64 { let mut v = 0u64; for i in 0..l
 #[derive(Clone, Debug)]
 pub struct PoolEnt { pub index: u16, pub tag: u8, pub off: usize }
 #[derive(Clone, Debug, Default)]
-pub struct PoolWalk { pub entries: Vec<PoolEnt>, pub end: usize, pub count: u16 }
+pub struct PoolWalk { pub entries: Vec<PoolEnt>, pub end: usize }
 
 /// Walks the constant pool without validating anything but the tags (own code; used to aim self-references and to
 /// describe inputs that killed the child). `None` when the bytes do not even have a walkable pool.
 pub fn walk_pool(b: &[u8]) -> Option<PoolWalk> {
     if b.len() < 10 { return None; }
     let count = rd(b, 8, 2) as u16;
-    let mut p = 10usize; let mut i = 1u16; let mut out = PoolWalk { count, ..Default::default() };
+    let mut p = 10usize; let mut i = 1u16; let mut out = PoolWalk::default();
     while i < count {
         let tag = *b.get(p)?;
         let size = match tag { 1 => 3 + rd(b.get(p + 1..p + 3)?, 0, 2) as usize, 3 | 4 => 5, 5 | 6 => 9, 7 | 8 | 16 | 19 | 20 => 3, 9 | 10 | 11 | 12 | 17 | 18 => 5, 15 => 4, _ => return None };
@@ -253,8 +253,6 @@ impl Asm {
     pub fn member(&mut self, tag: u8, owner: &str, name: &str, desc: &str) -> u16 { let c = self.class(owner); let nt = self.nat(name, desc); let mut e = vec![tag]; p16(&mut e, c); p16(&mut e, nt); self.add(&e, 1) }
     pub fn handle(&mut self, kind: u8, reference: u16) -> u16 { let mut e = vec![15, kind]; p16(&mut e, reference); self.add(&e, 1) }
     pub fn dynamic(&mut self, tag: u8, bsm: u16, name: &str, desc: &str) -> u16 { let nt = self.nat(name, desc); let mut e = vec![tag]; p16(&mut e, bsm); p16(&mut e, nt); self.add(&e, 1) }
-    /// index the next entry will get
-    pub fn peek(&self) -> u16 { self.next }
     pub fn attr(&mut self, name: &str, body: &[u8]) -> Vec<u8> { let n = self.utf8(name); let mut o = vec![]; p16(&mut o, n); p32(&mut o, body.len() as u32); o.extend_from_slice(body); o }
     pub fn attr_with_length(&mut self, name: &str, length: u32, body: &[u8]) -> Vec<u8> { let n = self.utf8(name); let mut o = vec![]; p16(&mut o, n); p32(&mut o, length); o.extend_from_slice(body); o }
     pub fn code_attr(&mut self, code: &[u8], exceptions: &[u8], n_exc: u16, attrs: &[Vec<u8>]) -> Vec<u8> {
